@@ -144,8 +144,63 @@ def run_machine(draws, state, tier):
     st = draws.stream("ops")
     entry = pool[st.below(len(pool), "schema")]
     seq = []
-    scenario = st.weighted((4, 1), "scenario")
-    if scenario == 1:
+    scenario = st.weighted((4, 1, 1), "scenario")
+    if scenario == 2:
+        # ---- supply-order independence for code-built schemas: the same
+        # type objects handed to Schema(types=[...]) in several orders
+        from py_gql.schema import (Field, Int, InterfaceType, Schema, String,
+                                   UnionType)
+
+        def build(perm, flavour):
+            foo1 = ObjectType("Foo", [Field("a", Int)])
+            bar = ObjectType("Bar", [Field("b", Int)])
+            iface = InterfaceType("Named", [Field("name", String)])
+            members = {"foo1": foo1, "bar": bar, "iface": iface}
+            if "dup" in flavour:
+                # a second, distinct object bearing an existing name, reached
+                # through a field of another type
+                foo2 = ObjectType("Foo", [Field("z", Int)])
+                members["holder"] = ObjectType(
+                    "Holder", [Field("foo", foo2), Field("n", Int)])
+            if "noimpl" in flavour:
+                members["impl"] = ObjectType(
+                    "Impl", [Field("other", Int)], interfaces=[iface])
+            if "union" in flavour:
+                members["u"] = UnionType("AnyOf", [foo1, bar])
+            baz = ObjectType("Baz", [Field("foo", foo1), Field("bar", bar)])
+            members["baz"] = baz
+            q = ObjectType("Query", [Field("x", Int), Field("baz", baz)])
+            names = sorted(members)
+            order = [members[names[i % len(names)]] for i in perm] + [
+                members[n] for n in names]
+            seen, types = set(), []
+            for t in order:
+                if id(t) not in seen:
+                    seen.add(id(t))
+                    types.append(t)
+            try:
+                Schema(q, types=types).validate()
+            except SchemaValidationError as err:
+                return ("invalid", tuple(sorted(str(e) for e in err.errors)))
+            except SchemaError as err:
+                return ("invalid", (str(err),))
+            return ("valid", ())
+
+        flavour = [f for f in ("dup", "noimpl", "union")
+                   if st.chance(1, 2, "flavour_" + f)]
+        verdicts = []
+        for _k in range(4):
+            perm = [st.below(8, "perm_i") for _ in range(6)]
+            verdicts.append(build(perm, flavour))
+        seq.append(("code-order", tuple(flavour)))
+        if len({v[0] for v in verdicts}) > 1:
+            V.append(Violation(P, "order_dependent_verdict", ("verdict",),
+                               "code-built %r: %r" % (flavour, verdicts)))
+        elif len(set(verdicts)) > 1:
+            V.append(Violation(P, "order_dependent_verdict", ("messages",),
+                               "code-built %r: %r" % (flavour, verdicts)))
+        res.count("probe:code_built_order_cases")
+    elif scenario == 1:
         # ---- supply-order independence on labelled invalid documents ------
         n = 1 + st.below(3, "n_mutants")
         chosen = []
